@@ -19,6 +19,12 @@ CHECKS = {
     "C12": (E1, "stateless model checking of the real code: exhaustive deviation-bounded enumeration of producer/consumer schedules; linearizability-style oracle on batches and values plus a vector-clock happens-before race detector on every plain access",
             "All schedules of 1-3 producers against a consumer (TransactionalBuffer) and of one producer against one consumer (TransactionalValue) up to the completed deviation bound, on the real headers; loss/duplication/order/torn-size are checked per execution and 'no data race' is decided by the happens-before detector, which reports a race in every schedule containing both accesses.",
             "Sequential consistency; 2-3 operations per thread; up to 3 producers (the statement's 1..8 is covered for <=3 only); bound named in the evidence.", "DESIGN.md 2.1, 4 C12"),
+    "C01": (E1, "stateless model checking of the real enkiTS scheduler and pipe: exhaustive deviation-bounded enumeration of caller/worker schedules with exactly-once, happens-before (join/visibility) and lifetime oracles; plus exhaustive enumeration of a declared input set (counts x 7 index types x block sizes) on all four backend builds",
+            "parallel_for / parallel_foreach / parallel_in_blocks_of on the internal backend are executed under every schedule up to the completed deviation bound for pools of 1-3 threads, n in {-1,0..6}, nesting, 1- and 2-slot pipes (pipe-full path) and the lock-less pipe is driven directly with 1 writer and 1-2 readers; bodies write plain cells, so a missing join or a doubly executed index is a reported race or a wrong count. For TBB, OpenMP, internal and debug builds every count of a boundary-heavy set x every accepted index type x block sizes 1..64 x n in [-3,70] is executed free-running. Schedules are what the property quantifies over and what the suite samples once; inputs/configurations are enumerable.",
+            "Sequential consistency (enkiTS volatile = SC atomic); TBB/libgomp scheduling not owned, so for those backends the verdict is exhaustive over inputs but observational over schedules; pool sizes > 3 and n > 6 under the controlled scheduler not covered.", "DESIGN.md 2.1, 4 C01"),
+    "C13": (E2, "bounded-exhaustive exploration of initialisation histories on all four backend builds (fresh process per history, reference model of the reported count) plus stateless model checking of the concurrency bound on the internal backend (deviation-bounded schedule enumeration with an in-body occupancy assertion)",
+            "Every sequence of initTaskingSystem(n) calls up to length 3 (thorough 4) over n in {-1,0,1,2,3,5,2*hw} is executed per backend and numTaskingThreads() compared with the model after each call; the never-exceeded part is decided on every schedule up to the bound for the internal backend (pools of 1-3, nested loops) and probed with a rendezvous body on TBB/OpenMP.",
+            "The occupancy bound on TBB and OpenMP is observational over their schedules; hardware thread count of this sandbox (16).", "DESIGN.md 2.1, 2.2, 4 C13"),
     "C02": (E1, "stateless model checking of the real code: exhaustive deviation-bounded enumeration of schedules of the caller against the executing worker/detached thread, for every controller script; exactly-once, value, happens-before race and quarantine lifetime oracles on every execution",
             "schedule(), async() and AsyncTask<T> (int, heap-owning std::string, lifetime-instrumented payload) are executed on the real headers and the real enkiTS scheduler under every schedule up to the completed deviation bound, for the internal backend with 2 and with 1 pool threads, the std::thread based OpenMP configuration and the serial debug backend; every {finished,get,wait} script up to length 3 followed by destruction. The property is about a window a few instructions wide (task start vs. member construction) and about memory touched after release: both need every schedule plus instrumentation, which this gives up to the bound.",
             "Sequential consistency; TBB's own scheduling is not owned (TBB backend not claimed for the schedule quantifier); bursts larger than 3 tasks not covered; bound named in the evidence.", "DESIGN.md 2.1, 4 C02"),
